@@ -18,6 +18,9 @@ def dispatch(prop, tier, seed):
     if prop in ('C07', 'C10'):
         from . import daemon_extract
         return getattr(daemon_extract, 'check_' + prop.lower())(tier, seed)
+    if prop in ('C08', 'C09'):
+        from . import daemon_updater
+        return daemon_updater.run_check(prop, tier, seed)
     raise SystemExit('no check for ' + prop)
 
 
